@@ -102,6 +102,18 @@ func stringPattern(rg *rng, n int) []byte {
 			k-- // the field itself ends on a character boundary (the rest, if any, is NUL)
 		}
 		copy(b, s[:k])
+	case 6: // a NUL-terminated string ending in a code point at the edge of an encoding length (or U+FFFD itself)
+		e := utf8Edges[rg.intn(len(utf8Edges))]
+		k := 0
+		if n > len(e)+1 {
+			k = rg.intn(n - len(e))
+		}
+		for i := 0; i < k; i++ {
+			b[i] = byte('a' + rg.intn(26))
+		}
+		if k+len(e) <= n {
+			copy(b[k:], e)
+		}
 	default:
 		k := rg.intn(n)
 		for i := 0; i < k; i++ {
